@@ -75,6 +75,8 @@ def generate(rng):
         scn['tear'] = [rng.choice([0, 1, 5, 40]) for _ in range(rng.randint(1, 4))]
     scn['shell_latency'] = rng.choice([1, 50, 2000, 40000])
     scn['hang_cmd'] = rng.random() < 0.3
+    if rng.random() < 0.15:
+        scn['retry_login'] = True        # after a failed login the application tries again on the same object
     # ssh normally leaves the local terminal without echo and lets the remote side echo; a stuck remote then echoes nothing
     scn['session_echo'] = rng.random() < 0.65
     # type-ahead: two commands are sent before the first prompt() is called (their outputs may arrive in one burst)
@@ -349,6 +351,37 @@ def run(scn):
             V('C17.overrun', 'login() took %.1f virtual s, configured timeouts add up to %.1f' % (dur / 1e6, bound / 1e6))
         if exc is None and res is not True:
             V('C17.return', 'login() returned %r' % (res,))
+        if scn.get('retry_login') and isinstance(exc, pexpect.ExceptionPexpect) and not out:
+            # the application tries again on the SAME object after a failed login.  The unchanged tree refuses that
+            # (AssertionError: the object is not re-usable), which is not judged; a tree that accepts it starts a new
+            # dialogue, and what it types into that one is held to the same rules -- nothing left over from the first
+            # dialogue may be answered
+            n_in0 = len(tr['inputs'])
+            old_pty = r.pty
+            exc2, res2 = None, None
+            try:
+                w.begin_op(50)
+                res2 = s.login('simhost', 'user', PASSWORD, cmd='/bin/simssh', **opts)
+            except AssertionError:
+                r.w.probe('second_login_on_the_same_object_refused')
+            except (SimHang, HarnessError):
+                raise
+            except Exception as e2:
+                exc2 = e2
+            if r.pty is not old_pty:
+                r.w.probe('second_login_on_the_same_object_started_a_new_dialogue')
+                pw2 = bytes(r.pty.in_log).count(pw)
+                if pw2 > 1:
+                    V('C17.password_twice', 'second login on the same object: the password was sent %d times' % pw2)
+                for state, line, before_out in tr['inputs'][n_in0:]:
+                    if pw in line and not re.search(br'(?i)(password:)|(passphrase for key)', before_out):
+                        V('C17.password_unasked', 'second login on the same object: the password was sent while the new server was in '
+                          'state %r; it had printed no password/passphrase prompt (text left over from the first dialogue was answered)'
+                          % state, since=before_out[-80:])
+                    if line.strip() == b'yes' and not re.search(br'(?i)are you sure you want to continue connecting', before_out):
+                        V('C17.yes_unasked', "second login on the same object: 'yes' was sent in state %r without a host-key question"
+                          % state, since=before_out[-80:])
+            res = None      # (nothing further is judged after a retry)
         if res is True and not out:
             if tr['state'] != 'shell':
                 V('C17.silent_success', 'login() returned True but the server never reached a shell (state %r)' % tr['state'])
